@@ -365,7 +365,20 @@ func SeqNth(s, i *Term) *Term {
 	if a, x, ok := snocParts(s); ok {
 		return Ite(Lt(i, SeqLen(a)), SeqNth(a, i), x)
 	}
-	return App(s.Sort.Elem(), "seq.nth", s, i)
+	raw := App(s.Sort.Elem(), "seq.nth", s, i)
+	r := resolveDef(s)
+	switch op, args := splitApp(r.S); {
+	case op == "seq.++" && len(args) == 2:
+		// element of a concatenation: in the first or in the second part
+		a, b := &Term{args[0], s.Sort}, &Term{args[1], s.Sort}
+		return Ite(Lt(i, SeqLen(a)), SeqNth(a, i), SeqNth(b, Sub(i, SeqLen(a))))
+	case op == "seq.extract" && len(args) == 3:
+		// element of a window that lies inside the sequence
+		b, off, n := &Term{args[0], s.Sort}, &Term{args[1], SInt}, &Term{args[2], SInt}
+		inside := And(Ge(i, IntLit(0)), Lt(i, n), Ge(off, IntLit(0)), Le(Add(off, n), SeqLen(b)))
+		return Ite(inside, SeqNth(b, Add(off, i)), raw)
+	}
+	return raw
 }
 func SeqExtract(s, off, n *Term) *Term {
 	return App(s.Sort, "seq.extract", s, off, n)
@@ -441,9 +454,29 @@ type Decls struct {
 	order []string
 	decl  map[string]string
 	n     int
+	old   map[string]bool // reference terms known to be allocated before function entry
 }
 
-func NewDecls() *Decls { return &Decls{decl: map[string]string{}} }
+func NewDecls() *Decls { return &Decls{decl: map[string]string{}, old: map[string]bool{}} }
+
+// isOld: the reference is allocated before function entry, so no object allocated later can
+// be equal to it. Known for parameters and for references read from the entry heap (H0), which
+// is closed under reachability (every reference stored in it was allocated before entry).
+func (d *Decls) isOld(t *Term) bool {
+	s := t.S
+	if d.old[s] || strings.HasPrefix(s, "(select H0!") || strings.HasPrefix(s, "(seq.nth (select H0!") {
+		return true
+	}
+	for _, acc := range []string{"(a_ref_v ", "(fn_recv "} {
+		if strings.HasPrefix(s, acc) && strings.HasSuffix(s, ")") {
+			inner := s[len(acc) : len(s)-1]
+			if d.old[inner] || strings.HasPrefix(inner, "(select H0!") || strings.HasPrefix(inner, "(seq.nth (select H0!") {
+				return true
+			}
+		}
+	}
+	return false
+}
 
 func (d *Decls) Const(name string, s Sort) *Term {
 	if _, ok := d.decl[name]; !ok {
